@@ -1,0 +1,162 @@
+package linter
+
+import "strings"
+
+// Placeholders used while line-based rules work on a text whose literal and comment
+// content must not be touched.
+const (
+	maskByte    = '\x01' // a protected byte
+	maskNewline = '\x02' // a protected line break (rewrites only)
+)
+
+// protectedMask reports, for every byte of sql, whether it lies inside a string literal,
+// a quoted or backticked identifier, a dollar-quoted string or a comment (delimiters
+// included). Such content may span several lines; an unterminated one runs to the end.
+// ambiguous is set when a single-quoted string contains a backslash directly before a
+// quote: whether that quote ends the string depends on the dialect, and the line-based
+// rules document that they do not handle it, so callers then work on the plain text as
+// they always did.
+func protectedMask(sql string) (mask []bool, ambiguous bool) {
+	mask = make([]bool, len(sql))
+	mark := func(from, to int) {
+		for i := from; i < to && i < len(sql); i++ {
+			mask[i] = true
+		}
+	}
+	i := 0
+	for i < len(sql) {
+		c := sql[i]
+		switch {
+		case c == '-' && i+1 < len(sql) && sql[i+1] == '-':
+			end := strings.IndexByte(sql[i:], '\n')
+			if end < 0 {
+				end = len(sql) - i
+			}
+			mark(i, i+end)
+			i += end
+		case c == '/' && i+1 < len(sql) && sql[i+1] == '*':
+			end := strings.Index(sql[i+2:], "*/")
+			stop := len(sql)
+			if end >= 0 {
+				stop = i + 2 + end + 2
+			}
+			mark(i, stop)
+			i = stop
+		case c == '\'' || c == '"' || c == '`':
+			j := i + 1
+			for j < len(sql) {
+				if c == '\'' && sql[j] == '\\' && j+1 < len(sql) && sql[j+1] == '\'' {
+					ambiguous = true
+				}
+				if sql[j] == c {
+					if j+1 < len(sql) && sql[j+1] == c { // doubled quote
+						j += 2
+						continue
+					}
+					break
+				}
+				j++
+			}
+			stop := j + 1
+			if stop > len(sql) {
+				stop = len(sql)
+			}
+			mark(i, stop)
+			i = stop
+		case c == '$':
+			// $tag$ ... $tag$ (the tag may be empty)
+			j := i + 1
+			for j < len(sql) && (sql[j] == '_' || sql[j] >= 'a' && sql[j] <= 'z' || sql[j] >= 'A' && sql[j] <= 'Z' || (j > i+1 && sql[j] >= '0' && sql[j] <= '9')) {
+				j++
+			}
+			if j < len(sql) && sql[j] == '$' {
+				tag := sql[i : j+1]
+				end := strings.Index(sql[j+1:], tag)
+				stop := len(sql)
+				if end >= 0 {
+					stop = j + 1 + end + len(tag)
+				}
+				mark(i, stop)
+				i = stop
+			} else {
+				i++
+			}
+		default:
+			i++
+		}
+	}
+	return mask, ambiguous
+}
+
+// MaskedLines returns the text split into lines, like strings.Split(sql, "\n"), with
+// every byte of literal, quoted-identifier and comment content replaced by a placeholder
+// that is neither a blank, a letter nor a quote. Line count and columns are those of the
+// original text, so rules can analyse the code of each line and report positions; an
+// empty line inside a multi-line literal or comment becomes a single placeholder so
+// that it does not read as a blank line.
+func MaskedLines(sql string) []string {
+	mask, ambiguous := protectedMask(sql)
+	if ambiguous {
+		return strings.Split(sql, "\n")
+	}
+	b := []byte(sql)
+	var lines []string
+	start := 0
+	for i := 0; i <= len(b); i++ {
+		if i == len(b) || b[i] == '\n' {
+			line := make([]byte, 0, i-start+1)
+			for j := start; j < i; j++ {
+				if mask[j] && b[j] != '\r' {
+					line = append(line, maskByte)
+				} else {
+					line = append(line, b[j])
+				}
+			}
+			if len(line) == 0 && i < len(b) && mask[i] {
+				line = append(line, maskByte)
+			}
+			lines = append(lines, string(line))
+			start = i + 1
+		}
+	}
+	return lines
+}
+
+// MaskForRewrite prepares sql for a line-based rewrite: literal, quoted-identifier and
+// comment content is replaced by placeholders (line breaks inside it included, so the
+// rewrite sees such content as part of one line). restore puts the original content
+// back into the rewritten text. ok is false when the text already contains a
+// placeholder byte; it must then be left alone.
+func MaskForRewrite(sql string) (masked string, restore func(string) string, ok bool) {
+	if strings.IndexByte(sql, maskByte) >= 0 || strings.IndexByte(sql, maskNewline) >= 0 {
+		return sql, func(s string) string { return s }, false
+	}
+	mask, ambiguous := protectedMask(sql)
+	if ambiguous {
+		return sql, func(s string) string { return s }, true
+	}
+	out := []byte(sql)
+	var saved []byte
+	for i := range out {
+		if mask[i] {
+			saved = append(saved, out[i])
+			if out[i] == '\n' {
+				out[i] = maskNewline
+			} else {
+				out[i] = maskByte
+			}
+		}
+	}
+	restore = func(s string) string {
+		r := []byte(s)
+		k := 0
+		for i := range r {
+			if (r[i] == maskByte || r[i] == maskNewline) && k < len(saved) {
+				r[i] = saved[k]
+				k++
+			}
+		}
+		return string(r)
+	}
+	return string(out), restore, true
+}
